@@ -148,16 +148,21 @@ func Run(sc Scenario) (msg string) {
 		// ForEach with a failing callback
 		k := mod(sc.Fail, n+1)
 		var visited []int
+		evalsAtError := -1
 		err := seq.ForEach(b.S(sc.Tree, 0), func(x int) error {
 			if len(visited) > n+slack {
 				panic("ForEach does not stop")
 			}
 			visited = append(visited, x)
 			if len(visited)-1 == k {
+				evalsAtError = b.evals
 				return errStop
 			}
 			return nil
 		})
+		if evalsAtError >= 0 && b.evals != evalsAtError {
+			return fmt.Sprintf("ForEach failing at callback %d did not stop at once: %d more evaluations of predicates / mappings / join functions happened after the callback returned its error", k, b.evals-evalsAtError)
+		}
 		wantVisited := want[:min(k+1, n)]
 		if !reflect.DeepEqual(append([]int{}, visited...), append([]int{}, wantVisited...)) {
 			return fmt.Sprintf("ForEach failing at callback %d visited %v, want %v", k, visited, wantVisited)
@@ -177,16 +182,21 @@ func Run(sc Scenario) (msg string) {
 		}
 		k := mod(sc.Fail, n+1)
 		var visited []kv
+		evalsAtError := -1
 		err := pair.ForEach(b.P(sc.Tree, 0), func(key, val int) error {
 			if len(visited) > n+slack {
 				panic("ForEach does not stop")
 			}
 			visited = append(visited, kv{key, val})
 			if len(visited)-1 == k {
+				evalsAtError = b.evals
 				return errStop
 			}
 			return nil
 		})
+		if evalsAtError >= 0 && b.evals != evalsAtError {
+			return fmt.Sprintf("pair.ForEach failing at callback %d did not stop at once: %d more evaluations of predicates / mappings / join functions happened after the callback returned its error", k, b.evals-evalsAtError)
+		}
 		wantVisited := want[:min(k+1, n)]
 		if !reflect.DeepEqual(append([]kv{}, visited...), append([]kv{}, wantVisited...)) {
 			return fmt.Sprintf("pair.ForEach failing at callback %d visited %v, want %v", k, visited, wantVisited)
